@@ -145,9 +145,13 @@ class file_store(base_store):
         except ImportError:
             pass
         except OSError:
-            pass
+            # write_array may have written part of the array: start the temporary file again
+            output.seek(0)
+            output.truncate()
         except ValueError:
-            pass
+            # write_array may have written part of the array: start the temporary file again
+            output.seek(0)
+            output.truncate()
 
         encode_to(value, output)
         output.flush()
